@@ -83,6 +83,10 @@ func (c *Client) handlePacket(p pk.Packet) (err error) {
 			return PacketHandlerError{ID: packetID, Err: err}
 		}
 	}
+	if packetID < 0 || int(packetID) >= len(c.Events.handlers) {
+		// the id comes from the peer: no specific handler can be registered for it
+		return
+	}
 	for _, handler := range c.Events.handlers[packetID] {
 		err = handler.F(p)
 		if err != nil {
